@@ -144,7 +144,7 @@ fn main() {
             let mut w = BufWriter::new(std::fs::File::create(&args[5]).expect("create script"));
             let mut nops = 0usize;
             for (k, e) in eps.iter().enumerate() {
-                writeln!(w, "{}", json!({"op": "reset", "ep": k, "n": e.n, "tys": e.tys, "prop": prop, "w": gen::weight(prop, e)})).unwrap();
+                writeln!(w, "{}", json!({"op": "reset", "ep": k, "n": e.n, "tys": e.tys, "prop": prop, "w": gen::weight(prop, e, tier == "thorough")})).unwrap();
                 for op in &e.ops {
                     writeln!(w, "{}", op).unwrap();
                     nops += 1;
@@ -167,7 +167,7 @@ fn main() {
             let mut w = BufWriter::new(std::fs::File::create(&args[5]).expect("create script"));
             let mut nops = 0usize;
             for (k, e) in res.episodes.iter().enumerate() {
-                writeln!(w, "{}", json!({"op": "reset", "ep": k, "n": e.n, "tys": e.tys, "prop": prop, "w": gen::weight(prop, e)})).unwrap();
+                writeln!(w, "{}", json!({"op": "reset", "ep": k, "n": e.n, "tys": e.tys, "prop": prop, "w": gen::weight(prop, e, budget > 20000)})).unwrap();
                 for op in &e.ops {
                     writeln!(w, "{}", op).unwrap();
                     nops += 1;
@@ -216,6 +216,8 @@ fn main() {
             let mut nev = 0usize;
             let mut nep = 0usize;
             let mut npanic = 0usize;
+            let mut chunk_line = 0usize;
+            let mut last_walk: Option<(String, usize)> = None;
             let open = |k: usize| BufWriter::new(std::fs::File::create(format!("{}.{:03}.ndjson", prefix, k)).expect("create trace"));
             let mut w = open(0);
             for ep in &episodes {
@@ -249,10 +251,27 @@ fn main() {
                         chunk += 1;
                         weight = 0;
                         w = open(chunk);
+                        chunk_line = 0;
+                        last_walk = None;
                     }
-                    for e in &evs {
+                    for e in evs.iter_mut() {
                         if e["out"] == "panic" {
                             npanic += 1;
+                        }
+                        chunk_line += 1;
+                        // the recorded walk (tens of kilobytes for 7 and 8 variables) is logged in full once per
+                        // chunk and sequence; an identical one refers to the line that has it
+                        if e.get("walk").and_then(|x| x.as_array()).map(|a| !a.is_empty()).unwrap_or(false) {
+                            let ser = e["walk"].to_string();
+                            match &last_walk {
+                                Some((prev, line)) if *prev == ser && ser.len() > 2000 => {
+                                    let line = *line;
+                                    let m = e.as_object_mut().unwrap();
+                                    m.remove("walk");
+                                    m.insert("walk_ref".into(), json!(line));
+                                }
+                                _ => last_walk = Some((ser, chunk_line)),
+                            }
                         }
                         writeln!(w, "{}", e).unwrap();
                         nev += 1;
